@@ -214,7 +214,16 @@ func VerifC13HTTP() {
 		domain := []string{"a.com", "b.com"}[zzverif.Choice("domain", 2)]
 		loc := []string{"/", "/x"}[zzverif.Choice("loc", 2)]
 		name := "pxy" + strconv.Itoa(s)
-		rc := vhost.RouteConfig{Domain: domain, Location: loc, CreateConnFn: func(string) (net.Conn, error) { return nil, errors.New(name) }}
+		rc := vhost.RouteConfig{Domain: domain, Location: loc, CreateConnFn: func(remote string) (net.Conn, error) {
+			c13SeenRemote = remote
+			if c13ProbeGroup != nil {
+				// while a member waits for its work connection, other proxies must be able to join
+				// or leave the group: the factory runs without the group lock held
+				c13ProbeGroup.mu.Lock()
+				c13ProbeGroup.mu.Unlock()
+			}
+			return nil, errors.New(name)
+		}}
 		// is the route owned by another group already?
 		taken := c13RouteExists(routers, domain, loc)
 		err := ctl.Register(name, g, key, rc)
@@ -259,9 +268,19 @@ func VerifC13HTTP() {
 		}
 		for _, m := range r.members {
 			zzverif.Assert(seen[m] == 2, "C13.rr.rotates-evenly")
+			// a request routed to this member reaches its connection factory with the user's address
+			c13SeenRemote = ""
+			c13ProbeGroup = grp
+			_, err := grp.createConnByEndpoint(m, "9.9.9.9:4321")
+			c13ProbeGroup = nil
+			zzverif.Assert(err != nil && err.Error() == m, "C13.rr.endpoint-reaches-the-chosen-member")
+			zzverif.Assert(c13SeenRemote == "9.9.9.9:4321", "C11.group.member-gets-the-user's-real-address")
 		}
 		if n >= 2 {
 			zzverif.Reach("C13.rr.rotated")
 		}
 	}
 }
+
+var c13SeenRemote string
+var c13ProbeGroup *HTTPGroup
